@@ -20,6 +20,7 @@ pub mod c17;
 pub mod c18;
 pub mod c20;
 pub mod queue;
+pub mod srvq;
 pub mod c19;
 
 pub fn all() -> Vec<Box<dyn Check>> {
